@@ -124,6 +124,9 @@ class VECTOR_BLF_EXPORT UncompressedFile final : public AbstractFile {
     /** put position */
     std::streampos m_tellp {};
 
+    /** position up to which a (possibly blocked) read needs data */
+    std::streampos m_tellgRequested {};
+
     /** last read size */
     std::streamsize m_gcount {};
 
